@@ -120,9 +120,10 @@ theorem C02_refusal_exact (hk : 0 ≤ k.cap) (hr : Reachable k s) (p : Nat) (el 
     (hf : fire k s (.offer p el) = some s') :
     ((s'.ps p).ph = .done .full ↔ (k.block = false ∧ 0 < el ∧ el ≤ k.cap ∧ s.size + el > k.cap)) ∧
     (p ∈ s'.accepted ↔ (0 < el ∧ el ≤ k.cap ∧ s.size + el ≤ k.cap ∧ s.stopped = false)) ∧
-    ((s'.ps p).ph = .sel ↔ (k.block = true ∧ 0 < el ∧ el ≤ k.cap ∧ s.size + el > k.cap)) ∧
+    ((s'.ps p).ph = .sel ↔ (k.block = true ∧ 0 < el ∧ el ≤ k.cap ∧ s.size + el > k.cap ∧ s.stopped = false)) ∧
     ((s'.ps p).ph = .done .invalid ↔ el < 0) ∧ ((s'.ps p).ph = .done .tooLarge ↔ (0 < el ∧ el > k.cap)) ∧
-    ((s'.ps p).ph = .done .stopped ↔ (0 < el ∧ el ≤ k.cap ∧ s.size + el ≤ k.cap ∧ s.stopped = true)) := by
+    ((s'.ps p).ph = .done .stopped ↔
+      (0 < el ∧ el ≤ k.cap ∧ s.stopped = true ∧ (s.size + el ≤ k.cap ∨ k.block = true))) := by
   have hH := (Inv.reachable hk hr).H
   simp only [fire] at hf
   split at hf
@@ -142,16 +143,24 @@ theorem C02_refusal_exact (hk : 0 ≤ k.cap) (hr : Reachable k s) (p : Nat) (el 
           simp only [refuse, upd_same]
           refine ⟨?_, ?_, ?_, ?_, ?_, ?_⟩ <;> simp [hna] <;> (intros; omega)
         · rename_i h2; cases hf
+          have hbf : ∀ b : Bool, ¬ b = true → b = false := by intro b hb; cases b <;> simp_all
           unfold tryAdd
           split
           · rename_i h3
             split
             · rename_i hb
-              simp only [register, upd_same]
-              refine ⟨?_, ?_, ?_, ?_, ?_, ?_⟩ <;> simp [hna, hb] <;> (intros; omega)
+              split
+              · rename_i hst
+                simp only [refuse, upd_same]
+                refine ⟨?_, ?_, ?_, ?_, ?_, ?_⟩ <;> simp [hna, hb, hst] <;> (intros; omega)
+              · rename_i hst
+                have hst' := hbf _ hst
+                simp only [register, upd_same]
+                refine ⟨?_, ?_, ?_, ?_, ?_, ?_⟩ <;> simp [hna, hb, hst'] <;> (intros; omega)
             · rename_i hb
+              have hb' := hbf _ hb
               simp only [refuse, upd_same]
-              refine ⟨?_, ?_, ?_, ?_, ?_, ?_⟩ <;> simp [hna, hb] <;> (intros; omega)
+              refine ⟨?_, ?_, ?_, ?_, ?_, ?_⟩ <;> simp [hna, hb'] <;> (intros; omega)
           · rename_i h3
             split
             · rename_i hst
@@ -159,7 +168,7 @@ theorem C02_refusal_exact (hk : 0 ≤ k.cap) (hr : Reachable k s) (p : Nat) (el 
               refine ⟨?_, ?_, ?_, ?_, ?_, ?_⟩ <;> simp [hna, hst] <;> (intros; omega)
             · rename_i hst
               simp only [accept, upd_same]
-              have hst' : s.stopped = false := by cases h : s.stopped <;> simp_all
+              have hst' : s.stopped = false := hbf _ hst
               cases hw : k.wfr <;> simp [hst'] <;> omega
   · cases hf
 
@@ -170,9 +179,10 @@ theorem C02_nothing_accepted_after_shutdown (l : Label) (s' : St) (hs : s.stoppe
   have hta : ∀ p el, (tryAdd k s p el).accepted = s.accepted ∧ (tryAdd k s p el).items = s.items := by
     intro p el
     unfold tryAdd register refuse
+    simp only [hs, if_true]
     split
     · split <;> exact ⟨rfl, rfl⟩
-    · simp [hs]
+    · exact ⟨rfl, rfl⟩
   by_cases hl : l = .shutdown
   · subst hl; simp only [fire] at hf; cases hf; exact ⟨rfl, Nat.le_refl _, rfl⟩
   refine ⟨?_, ?_, by rw [stopped_step hf hl]; exact hs⟩
@@ -235,7 +245,7 @@ theorem C02_nothing_accepted_after_shutdown (l : Label) (s' : St) (hs : s.stoppe
       · cases hf
         unfold finish
         simp only []
-        split <;> simp [(condSignal_fields _).1, condSignal_accepted]
+        split <;> first | rfl | exact Nat.le_refl _
       · cases hf
 
 /-! ## wait_for_result -/
@@ -847,7 +857,7 @@ theorem C02_check_refusal_sound_memory (block stopped : Bool) (cap sizeBefore el
     (h : Check.refusalClause false block stopped cap sizeBefore el st = true) :
     (st = "full" ↔ (block = false ∧ 0 < el ∧ el ≤ cap ∧ sizeBefore + el > cap)) ∧
     (st = "inv" ↔ el < 0) ∧ (st = "big" ↔ (0 < el ∧ el > cap)) ∧
-    (st = "stopped" ↔ (stopped = true ∧ 0 < el ∧ el ≤ cap ∧ sizeBefore + el ≤ cap)) := by
+    (st = "stopped" ↔ (stopped = true ∧ 0 < el ∧ el ≤ cap ∧ (sizeBefore + el ≤ cap ∨ block = true))) := by
   have d1 : ("full" : String) ≠ "inv" := by decide
   have d2 : ("full" : String) ≠ "big" := by decide
   have d3 : ("inv" : String) ≠ "big" := by decide
@@ -874,9 +884,13 @@ theorem C02_check_refusal_sound_memory (block stopped : Bool) (cap sizeBefore el
           · simp [h0, h1, h2, h3] at h
             subst h
             refine ⟨by simp; omega, by simp [d1]; omega, by simp [d2]; intros; omega, by simp [d7]; intros; omega⟩
-          · simp [h0, h1, h2, h3] at h
-            obtain ⟨⟨⟨a, b⟩, c⟩, d⟩ := h
-            refine ⟨by simp [a], by simp [b]; omega, by simp [c]; intros; omega, by simp [d]; intros; omega⟩
+          · cases stopped
+            · simp [h0, h1, h2, h3] at h
+              obtain ⟨⟨⟨a, b⟩, c⟩, d⟩ := h
+              refine ⟨by simp [a], by simp [b]; omega, by simp [c]; intros; omega, by simp [d]⟩
+            · simp [h0, h1, h2, h3] at h
+              subst h
+              refine ⟨by simp [d7.symm], by simp [d8.symm]; omega, by simp [d9.symm]; intros; omega, by simp; omega⟩
         · cases stopped
           · simp [h0, h1, h2, h3] at h
             obtain ⟨⟨⟨a, b⟩, c⟩, d⟩ := h
@@ -884,6 +898,12 @@ theorem C02_check_refusal_sound_memory (block stopped : Bool) (cap sizeBefore el
           · simp [h0, h1, h2, h3] at h
             subst h
             refine ⟨by simp [d7.symm]; intros; omega, by simp [d8.symm]; omega, by simp [d9.symm]; intros; omega, by simp; omega⟩
+
+theorem C02_check_fits_sound (cap size : Int) (els : List Int) (h : Check.fitsClause cap size els = true) :
+    ∀ el ∈ els, size + el > cap := by
+  intro el hel
+  simp only [Check.fitsClause, List.all_eq_true, decide_eq_true_eq] at h
+  exact h el hel
 
 theorem C02_check_refusal_sound_persistent (block stopped : Bool) (cap sizeBefore el : Int) (st : String)
     (h : Check.refusalClause true block stopped cap sizeBefore el st = true) :
@@ -1116,39 +1136,72 @@ def C02_release_on_space_full : Prop :=
   ∀ (k : Cfg) (s : St), 0 ≤ k.cap → Reachable k s → Quiescent k s →
     ∀ p, (s.ps p).ph.inCond → s.size + (s.ps p).el > k.cap
 
-/-- head-of-line witness (capacity 10): request 0 (size 9) is queued, producers 1 (size 5) and 2 (size 2) block; request 0
-finishes, its single `Signal` releases producer 1; everything is at rest with `size = 5` and producer 2 still asleep in the
-select although `5 + 2 ≤ 10`.  It is released by the next completion (`C02_blocked_implies_pending_completion`). -/
-theorem C02_release_on_space_full_fails : ¬ C02_release_on_space_full := by
-  intro h
-  have hev : (runSched k10 {} hol).map (fun s => ((s.ps 0).ph, (s.ps 1).ph, (s.ps 2).ph, (s.ps 2).sig, (s.ps 2).canc,
-      (s.ps 2).el, s.size, s.cwoken)) = some (.done .ok, .done .ok, .sel, false, false, 2, 5, []) := by rfl
-  cases hrun : runSched k10 {} hol with
-  | none => rw [hrun] at hev; cases hev
-  | some s =>
-    rw [hrun] at hev
-    simp only [Option.map_some, Option.some.injEq, Prod.mk.injEq] at hev
-    obtain ⟨e0, e1, e2, e3, e4, e5, e6, e7⟩ := hev
-    have hr : Reachable k10 s := ⟨hol, hrun⟩
-    have hq : Quiescent k10 s := by
-      refine quiescent_of ?_ e7
-      intro p
-      by_cases h0 : p = 0
-      · subst h0; exact Or.inr (Or.inl ⟨_, e0⟩)
-      by_cases h1 : p = 1
-      · subst h1; exact Or.inr (Or.inl ⟨_, e1⟩)
-      by_cases h2 : p = 2
-      · subst h2; exact Or.inr (Or.inr ⟨e2, e3, e4⟩)
-      left
-      refine idle_run hol {} s p hrun rfl ?_
-      intro l hl el he
-      subst he
-      simp [hol] at hl
-      omega
-    have := h k10 s (by decide) hr hq 2 (Or.inl e2)
-    rw [e5, e6] at this
-    revert this
-    decide
+/-- **the release clause as worded holds for the repaired code** (space is freed with `Broadcast`: every waiter
+re-checks its own size): in every reachable state at rest, a producer that is still inside `cond.Wait` does not fit —
+"released once earlier requests finish and free enough space".  (Before the repair this was false: one `Signal` per
+completion; the head-of-line schedule `hol` below was the kernel-checked witness `C02_release_on_space_full_fails`,
+now historical.) -/
+theorem C02_release_on_space_full_holds : C02_release_on_space_full := by
+  intro k s hk hr hq p hp
+  have hI := Inv.reachable hk hr
+  have hF := (InvF.reachable hk hr).1
+  have hnoTok : (s.ps p).ph ≠ .wokenTok := by
+    intro a; have := hq (.relockTok p) rfl; simp [fire, a] at this
+  have hnoCtx : (s.ps p).ph ≠ .wokenCtx := by
+    intro a; have := hq (.relockCtx p) rfl; simp [fire, a] at this
+  rcases hp with a | a | a
+  · have hsig : (s.ps p).sig = false := by
+      cases hs : (s.ps p).sig with
+      | false => rfl
+      | true => have := hq (.wakeTok p) rfl; simp [fire, a, hs] at this
+    exact hF p ((hI.C.wIff p).mpr ⟨Or.inl a, hsig⟩)
+  · exact absurd a hnoTok
+  · exact absurd a hnoCtx
+
+/-- the same for the persistent queue (both places where it frees space broadcast) -/
+theorem C02_persistent_release_on_space (hk : 0 ≤ k.cap) (hr : PReachable k s) (hq : PQuiescent k s) :
+    ∀ p, (s.ps p).ph.inCond → s.size + (s.ps p).el > k.cap := by
+  intro p hp
+  have hI := Invp.reachable hk hr
+  have hF := InvF.preachable hk hr
+  have hnoTok : (s.ps p).ph ≠ .wokenTok := by
+    intro a; have := hq (.relockTok p) rfl; simp [pfire, a] at this
+  have hnoCtx : (s.ps p).ph ≠ .wokenCtx := by
+    intro a; have := hq (.relockCtx p) rfl; simp [pfire, a] at this
+  rcases hp with a | a | a
+  · have hsig : (s.ps p).sig = false := by
+      cases hs : (s.ps p).sig with
+      | false => rfl
+      | true => have := hq (.wakeTok p) rfl; simp [pfire, a, hs] at this
+    exact hF p ((hI.C.wIff p).mpr ⟨Or.inl a, hsig⟩)
+  · exact absurd a hnoTok
+  · exact absurd a hnoCtx
+
+/-- `Shutdown` releases the producers blocked on overflow: on a stopped memory queue nobody is registered on
+`hasMoreSpace`, and at rest nobody is inside `cond.Wait` at all (they were refused with `errQueueIsStopped`) -/
+theorem C02_nobody_waits_after_shutdown (hk : 0 ≤ k.cap) (hr : Reachable k s) (hs : s.stopped = true) :
+    s.waiters = [] ∧ (Quiescent k s → ∀ p, ¬ (s.ps p).ph.inCond) := by
+  have hI := Inv.reachable hk hr
+  have hw := (InvF.reachable hk hr).2 hs
+  refine ⟨hw, ?_⟩
+  intro hq p hp
+  rcases hp with a | a | a
+  · cases hsg : (s.ps p).sig with
+    | true => have := hq (.wakeTok p) rfl; simp [fire, a, hsg] at this
+    | false =>
+      have := (hI.C.wIff p).mpr ⟨Or.inl a, hsg⟩
+      rw [hw] at this; cases this
+  · have := hq (.relockTok p) rfl; simp [fire, a] at this
+  · have := hq (.relockCtx p) rfl; simp [fire, a] at this
+
+/-- the former head-of-line witness: the completion of request 0 now wakes producers 1 AND 2; both get in -/
+example : (runSched k10 {} (hol ++ [.wakeTok 2, .relockTok 2])).map
+    (fun s => ((s.ps 1).ph, (s.ps 2).ph, s.size, s.waiters)) = some (.done .ok, .done .ok, 7, []) := by rfl
+
+/-- `Shutdown` with two blocked producers: both are woken and refused, nobody is left behind on the stopped queue -/
+example : (runSched { cap := 2, block := true, wfr := false } {}
+    [.offer 0 2, .offer 1 1, .offer 2 1, .read 7, .shutdown, .wakeTok 1, .relockTok 1, .wakeTok 2, .relockTok 2]).map
+    (fun s => ((s.ps 1).ph, (s.ps 2).ph, s.waiters)) = some (.done .stopped, .done .stopped, []) := by rfl
 
 /-! ## non-vacuity: concrete schedules -/
 
